@@ -61,6 +61,11 @@ CLAIMED = {
             'tables, dangling table / column names in references, indexes and groups. Postconditions are IFF: the rule\'s error '
             'exactly when the rule is broken, otherwise a database holding both declarations.',
             'DESIGN.md 6/C06', 'Open finding c06_alias_ignores_schema.'),
+    'C10': ('All edit histories of depth D from a menu of 22 in-place edits (renames of tables / schemas / columns / enums / items, '
+            'type, flag, default, note, alias changes, reference kind / inline-ness / name / actions, added columns / indexes / items, '
+            'removed indexes) on an API-built database; .dbml and .sql of the edited database and of its elements must equal those of a '
+            'database freshly rebuilt from the final plain content by an independent rebuild oracle.',
+            'DESIGN.md 6/C10', ''),
 }
 _PENDING = 'check under construction in this session (harness not yet committed); not claimed until it runs clean on the unchanged tree'
 NOT_APPLICABLE = {f'C{i:02d}': _PENDING for i in range(1, 19) if f'C{i:02d}' not in CLAIMED}
